@@ -118,6 +118,7 @@ func init() {
 // for annual crops: a permanent crop starts again after a cut).
 func c09LongProbe(c *mc.Ctx, label string) *hermes.VerifProbe {
 	lastStage, lastCrop := -1.0, -1
+	lastPhyllo := -1.0
 	return &hermes.VerifProbe{DayEnd: func(g *hermes.GlobalVarsMain, zeit int, steps, wdt float64, cs *hermes.CropSharedVars, wv *hermes.WaterSharedVars) {
 		k := g.AKF.Index
 		if g.SAAT[k] <= 0 || zeit < g.SAAT[k] || zeit >= g.ERNTE[k] {
@@ -125,6 +126,7 @@ func c09LongProbe(c *mc.Ctx, label string) *hermes.VerifProbe {
 		}
 		if k != lastCrop {
 			lastCrop, lastStage = k, -1
+			lastPhyllo = -1
 		}
 		c.Transition(1)
 		h := mc.NewHasher().I(k).F(g.INTWICK.Num).F(g.OBMAS).F(g.LAI).I(g.WURZ).F(g.PESUM)
@@ -166,6 +168,10 @@ func c09LongProbe(c *mc.Ctx, label string) *hermes.VerifProbe {
 		if float64(g.WURZ) > lim {
 			c.Violate("rooting-depth-beyond-soil-root-limit", fmt.Sprintf("%s: rooting depth %d layers, soil root limit %d (crop factor %g/11)", day, g.WURZ, g.WURZMAX, g.WUMAXPF), nil)
 		}
+		if !g.DAUERKULT && g.PHYLLO < lastPhyllo-1e-9 {
+			c.Violate("development-sum-decreased", fmt.Sprintf("%s: the cumulated development sum went from %.6f to %.6f", day, lastPhyllo, g.PHYLLO), nil)
+		}
+		lastPhyllo = g.PHYLLO
 		if !g.DAUERKULT && g.INTWICK.Num < lastStage {
 			c.Violate("development-stage-decreased", fmt.Sprintf("%s: stage went from %g to %g", day, lastStage, g.INTWICK.Num), nil)
 		}
@@ -272,6 +278,7 @@ func c09Run(raw json.RawMessage, c *mc.Ctx) {
 		writeWeather(root, p)
 		label := fmt.Sprintf("%s%s (%s) soil %s root limit %d N level %d CO2 method %d word=%v", sp.File, map[bool]string{true: fmt.Sprintf(" with N-content function %d", sp.NFkt), false: ""}[sp.NFkt > 0], map[bool]string{true: "yml", false: "txt"}[sp.Yml], sp.Soil, sp.Root, sp.NLevel, sp.CO2, w)
 		lastStage := -1.0
+		lastPhyllo := -1.0
 		nv := len(c.Viol)
 		stageDOY := map[int]int{} // stage number -> day of year on which the crop under test entered it
 		pr := &hermes.VerifProbe{DayEnd: func(g *hermes.GlobalVarsMain, zeit int, steps, wdt float64, cs *hermes.CropSharedVars, wv *hermes.WaterSharedVars) {
@@ -322,6 +329,12 @@ func c09Run(raw json.RawMessage, c *mc.Ctx) {
 				stageDOY[st] = g.TAG.Index + 1
 			}
 			c.Eval(1)
+			// the cumulated development sum behind the stage number never shrinks either (a day that does not advance
+			// development leaves it where it is)
+			if g.PHYLLO < lastPhyllo-1e-9 {
+				c.Violate("development-sum-decreased", fmt.Sprintf("%s: the cumulated development sum went from %.6f to %.6f", day, lastPhyllo, g.PHYLLO), nil)
+			}
+			lastPhyllo = g.PHYLLO
 			if g.INTWICK.Num < lastStage {
 				c.Violate("development-stage-decreased", fmt.Sprintf("%s: stage went from %g to %g", day, lastStage, g.INTWICK.Num), nil)
 			}
